@@ -316,6 +316,10 @@ func (r *Runner) CheckUP4Image(snap rig.PSnap, env UP4Env, o UP4Opts) (*UP4Obs, 
 		}
 	}
 	// ---- terminations ----
+	// Which QER of a session is session-wide is the agent's choice, but it is one choice per session: every
+	// terminations entry of a PDR with two QERs must follow the QER that is NOT the chosen one, and the choice
+	// stays while no request touches the QERs or the QER lists. sessChoice narrows the admissible choices.
+	sessChoice := map[int]map[uint32]bool{}
 	ctrSeen := map[uint64]string{}
 	checkTerm := func(table string, want map[termKey]termExp, up bool) error {
 		seen := map[termKey]bool{}
@@ -402,6 +406,35 @@ func (r *Runner) CheckUP4Image(snap rig.PSnap, env UP4Env, o UP4Opts) (*UP4Obs, 
 			if firstErr != nil {
 				return firstErr
 			}
+			if len(p.QERs) == 2 && len(cands) == 2 {
+				set, ok := sessChoice[s.Idx]
+				if !ok {
+					set = map[uint32]bool{}
+					if s.UP4SessQER != nil {
+						for id := range s.UP4SessQER {
+							set[id] = true
+						}
+					} else {
+						set[p.QERs[0]], set[p.QERs[1]] = true, true
+					}
+					sessChoice[s.Idx] = set
+				}
+				for sc := range set {
+					// the application QER is the one of the two that is not session-wide
+					app := cands[0]
+					if p.QERs[0] == sc {
+						app = cands[1]
+					} else if p.QERs[1] != sc {
+						continue // a choice that is not in this PDR's list says nothing about it
+					}
+					if check(app, true) != nil {
+						delete(set, sc)
+					}
+				}
+				if len(set) == 0 {
+					return fmt.Errorf("%s: the entry follows QER choices that no single session-wide QER of session %d explains (QER list %v; the other entries of the session, or its entries before the last request, follow the other QER): the session-wide limiter was re-labelled", tag, s.Idx, p.QERs)
+				}
+			}
 			if o.Rates && e.Action != "uplink_term_drop" && e.Action != "downlink_term_drop" {
 				if err := r.checkUP4Rates(snap, s, p, up, tag, e.Params["app_meter_idx"], sessMeterDir[sessDirKey{s.Idx, up}]); err != nil {
 					return err
@@ -430,6 +463,11 @@ func (r *Runner) CheckUP4Image(snap rig.PSnap, env UP4Env, o UP4Opts) (*UP4Obs, 
 	}
 	if err := checkTerm("terminations_downlink", wantTD, false); err != nil {
 		return nil, err
+	}
+	for _, s := range r.LiveSessions() {
+		if set, ok := sessChoice[s.Idx]; ok {
+			s.UP4SessQER = set
+		}
 	}
 	for idx, cells := range sessMeterOf {
 		for c := range cells {
